@@ -1296,3 +1296,130 @@ func (r *Run) RecoverCovers(fnName string, matches []string, why string) {
 	f2, l2 := r.P.Pos(d.Pos())
 	r.pass("K8-recover", fnName, construct, fmt.Sprintf("%d call(s) covered", n), why, f2, l2)
 }
+
+// droppedErrors lists call instructions in fn whose error result is not used at all.
+func (r *Run) droppedErrors(fn *ssa.Function) []*CallSite {
+	var out []*CallSite
+	for _, cs := range r.P.Calls(fn, false) {
+		if _, isDefer := cs.Instr.(*ssa.Defer); isDefer {
+			continue
+		}
+		if _, isGo := cs.Instr.(*ssa.Go); isGo {
+			continue
+		}
+		sig := cs.Instr.Common().Signature()
+		ei := errResultIndex(sig)
+		if ei < 0 {
+			continue
+		}
+		v := cs.Instr.Value()
+		if v == nil {
+			continue
+		}
+		used := false
+		if sig.Results().Len() == 1 {
+			used = len(*v.Referrers()) > 0
+		} else {
+			for _, ref := range *v.Referrers() {
+				if ex, ok := ref.(*ssa.Extract); ok && ex.Index == ei && len(*ex.Referrers()) > 0 {
+					used = true
+				}
+			}
+		}
+		if !used {
+			out = append(out, cs)
+		}
+	}
+	return out
+}
+
+// NoDroppedErrors: in the listed functions no call drops its error result (exceptions: "<fn>|<callee>" → reason).
+func (r *Run) NoDroppedErrors(fnNames []string, exceptions map[string]string, why string) {
+	for _, fnName := range fnNames {
+		fn := r.fn(fnName)
+		if fn == nil {
+			continue
+		}
+		file, line := r.P.FnPos(fn)
+		ds := r.droppedErrors(fn)
+		byCallee := map[string][]*CallSite{}
+		var keys []string
+		for _, d := range ds {
+			if _, ok := byCallee[d.Callee]; !ok {
+				keys = append(keys, d.Callee)
+			}
+			byCallee[d.Callee] = append(byCallee[d.Callee], d)
+		}
+		sort.Strings(keys)
+		for _, k := range keys {
+			d := byCallee[k][0]
+			construct := "error of " + k + " used"
+			if reason, ok := exceptions[fnName+"|"+k]; ok {
+				r.pass("K2-error-discipline", fnName, construct, "exception: "+reason, why, d.File, d.Line)
+				continue
+			}
+			r.viol("K2-error-discipline", fnName, construct, fmt.Sprintf("%s discards the error returned by %s (%d call site(s), first at %s:%d): a failing step is silently skipped", fnName, k, len(byCallee[k]), d.File, d.Line), why, d.File, d.Line)
+		}
+		if len(ds) == 0 {
+			r.pass("K2-error-discipline", fnName, "no dropped errors", "", why, file, line)
+		}
+	}
+}
+
+// LoopNoEarlyExit: the range loop over the collection with canonical path coll in fn has no early
+// exit (break/return) from its body.
+func (r *Run) LoopNoEarlyExit(fnName, coll, why string) {
+	fn := r.fn(fnName)
+	if fn == nil {
+		return
+	}
+	coll = r.X(coll)
+	env := r.P.Env(fn)
+	file, line := r.P.FnPos(fn)
+	construct := "loop over " + coll + " visits every element"
+	// slice range loops: header = block whose If compares (iter+1) < len(coll)
+	want := "lt((iter+1),len(" + coll + "))"
+	for _, b := range fn.Blocks {
+		ifi, ok := lastInstr(b).(*ssa.If)
+		if !ok || env.condOf(ifi.Cond).String() != want {
+			continue
+		}
+		// natural loop of header b
+		inLoop := map[*ssa.BasicBlock]bool{b: true}
+		work := []*ssa.BasicBlock{}
+		for _, p := range b.Preds {
+			if b.Dominates(p) {
+				work = append(work, p)
+			}
+		}
+		for len(work) > 0 {
+			x := work[len(work)-1]
+			work = work[:len(work)-1]
+			if inLoop[x] {
+				continue
+			}
+			inLoop[x] = true
+			work = append(work, x.Preds...)
+		}
+		for x := range inLoop {
+			if x == b {
+				continue
+			}
+			for _, s := range x.Succs {
+				if !inLoop[s] {
+					f2, l2 := r.P.Pos(lastInstr(x).Pos())
+					if f2 == "" {
+						f2, l2 = file, line
+					}
+					r.viol("K2-loop-complete", fnName, construct, fmt.Sprintf("the body of the loop over %s leaves the loop early (near %s:%d): later elements are ignored", coll, f2, l2), why, f2, l2)
+					return
+				}
+			}
+		}
+		// a Return inside the dominated body that is not in the natural loop
+		f2, l2 := r.P.Pos(ifi.Cond.Pos())
+		r.pass("K2-loop-complete", fnName, construct, "", why, f2, l2)
+		return
+	}
+	r.viol("K2-loop-complete", fnName, construct, "loop not found", why, file, line)
+}
